@@ -329,7 +329,7 @@ impl Node {
         payload: Option<OwnedTerm>,
     ) -> Result<()> {
         match control_msg {
-            ControlMessage::Send { to_pid, .. } => {
+            ControlMessage::Send { to_pid, .. } | ControlMessage::SendTt { to_pid, .. } => {
                 if let Some(body) = payload
                     && let OwnedTerm::Pid(pid) = to_pid
                 {
@@ -343,7 +343,7 @@ impl Node {
                     }
                 }
             }
-            ControlMessage::RegSend { to_name, .. } => {
+            ControlMessage::RegSend { to_name, .. } | ControlMessage::RegSendTt { to_name, .. } => {
                 if let Some(body) = payload
                     && let OwnedTerm::Atom(name) = to_name
                     && let Some(pid) = registry.whereis(&name).await
@@ -356,6 +356,23 @@ impl Node {
                 from_pid,
                 to_pid,
                 reason,
+            }
+            | ControlMessage::ExitTt {
+                from_pid,
+                to_pid,
+                reason,
+                ..
+            }
+            | ControlMessage::Exit2 {
+                from_pid,
+                to_pid,
+                reason,
+            }
+            | ControlMessage::Exit2Tt {
+                from_pid,
+                to_pid,
+                reason,
+                ..
             } => {
                 if let OwnedTerm::Pid(from) = from_pid
                     && let OwnedTerm::Pid(to) = to_pid
